@@ -149,6 +149,8 @@ class ShapeLifter(Lifter):
         self.explore_guards = False
         self.generic_compare = False   # decide `a == b` on symbolic sizes
         self.individual_labels = set()  # axis labels that index individuals
+        self.check_random = False       # flag shared random realisations
+        self.check_mix = False          # flag full reductions re-broadcast
 
     # -- helpers ---------------------------------------------------------------
     def note(self, kind, node, msg, **kw):
@@ -496,7 +498,29 @@ class ShapeLifter(Lifter):
                               tuple(str(k.size) for k in b.axes)),
                           a=a, b=b)
                 return TOP
-        return Arr(out)
+        res = Arr(out)
+        if not into and (a.random or b.random):
+            # independent draws must exist along every axis of the result:
+            # a random operand that lacks a (non-unit) axis of the result
+            # repeats one realisation along it
+            res.random = True
+            for r_, o_ in ((a, x), (b, y)):
+                if not r_.random:
+                    continue
+                for p_, q_ in zip(o_, out):
+                    if eq(p_.size, 1) and not eq(q_.size, 1) and \
+                            self.check_random:
+                        self.note('shape', node,
+                                  '%s: random draws of shape %s are broadcast '
+                                  'to shape %s: one realisation is repeated '
+                                  'along the axis of size %s instead of '
+                                  'independent draws' % (
+                                      what,
+                                      tuple(str(k.size) for k in r_.axes),
+                                      tuple(str(k.size) for k in out),
+                                      q_.size))
+                        break
+        return res
 
     def _binop(self, op, a, b):
         if isinstance(op, ast.MatMult):
@@ -528,6 +552,22 @@ class ShapeLifter(Lifter):
             return TOP
         if isinstance(b, Arr) and b.is_list and isinstance(op, ast.Mult):
             return self._binop(op, b, a)
+        if self.check_mix and isinstance(op, (ast.Add, ast.Sub)):
+            for arr, sc in ((a, b), (b, a)):
+                if isinstance(arr, Arr) and isinstance(sc, sp.Symbol) \
+                        and sc.name.startswith('_scalar|'):
+                    red = set(sc.name.split('|')[1:])
+                    mixed = [l for l, s_ in arr.flat_nest()
+                             if l in red and known_label(l)]
+                    if mixed:
+                        self.note('shape', self._cur,
+                                  'a value summed over the axes (%s) is '
+                                  'added to every entry of an array laid out '
+                                  'as (%s): the contributions of different '
+                                  '%s entries are mixed (a reduction over '
+                                  'one axis only was meant)' % (
+                                      ', '.join(sorted(red)),
+                                      nest_str(arr.flat_nest()), mixed[0]))
         if isinstance(a, Arr):
             return a if not isinstance(b, Opaque) or True else TOP
         if isinstance(b, Arr):
@@ -787,7 +827,9 @@ class ShapeLifter(Lifter):
             if not isinstance(v, Arr):
                 return TOP
             if axis is None:
-                return sp.Symbol('_scalar')
+                # a full reduction: remember over which axes it summed
+                return sp.Symbol('_scalar|' + '|'.join(
+                    str(l) for l, s_ in v.flat_nest() if l))
             if isinstance(axis, sp.Integer):
                 a = int(axis)
                 axes = list(v.axes)
@@ -839,12 +881,13 @@ class ShapeLifter(Lifter):
             # sequence k times (k > src)
             v = ev(n.args[0])
             k = self.as_int(ev(n.args[1]))
-            if isinstance(v, Arr) and v.ndim == 1 and k is not None:
+            if isinstance(v, Arr) and k is not None and (
+                    v.ndim == 1 or f == 'np.repeat'):
+                # without `axis` np.repeat works on the flattened array
                 rep = ((label_of(k), k),)
-                nest = v.axes[0].nest + rep if f == 'np.repeat' \
-                    else rep + v.axes[0].nest
-                return Arr((Ax(v.axes[0].size * k, nest),),
-                           is_list=v.is_list)
+                flat = v.flat_nest()
+                nest = flat + rep if f == 'np.repeat' else rep + flat
+                return Arr((Ax(v.total() * k, nest),), is_list=v.is_list)
             return TOP
         if isinstance(n.func, ast.Attribute) and n.func.attr == 'integers' \
                 and n.args:
@@ -882,8 +925,12 @@ class ShapeLifter(Lifter):
                 args = n.args
                 if len(args) == 1 and isinstance(args[0], ast.Tuple):
                     args = args[0].elts
-                for a in args:
-                    d = self.as_int(ev(a))
+                vals_ = [ev(a) for a in args]
+                if len(vals_) == 1 and isinstance(vals_[0], (Tup, tuple)) \
+                        and not isinstance(vals_[0], Arr):
+                    vals_ = list(vals_[0])      # a name bound to a shape
+                for v_ in vals_:
+                    d = self.as_int(v_)
                     if d is None:
                         return TOP
                     dims.append(d)
